@@ -76,7 +76,7 @@ def make_semantics(kind, actrule='*'):
         pass
 
     def hit(name, ast):
-        return (actrule in ('*', name)) and ast == 'b'
+        return (actrule in ('*', name)) and (ast == 'b' or (isinstance(ast, dict) and 'b' in list(ast.values())))
 
     class Sem:
         calls = log
@@ -237,3 +237,83 @@ def run_both_case(case):
     m = run_model_case(case)
     g = run_generated_case(case)
     return {'compile': m['compile'], 'res': m['res'], 'gen': g}
+
+
+class _Quiet:
+    """Discard everything written to fd 1/2 and the logging handlers while tracing."""
+
+    def __enter__(self):
+        import logging
+        sys.stdout.flush(); sys.stderr.flush()
+        self.null = os.open(os.devnull, os.O_WRONLY)
+        self.o1, self.o2 = os.dup(1), os.dup(2)
+        os.dup2(self.null, 1); os.dup2(self.null, 2)
+        self.lvl = logging.root.manager.disable
+        logging.disable(logging.CRITICAL)
+        return self
+
+    def __exit__(self, *a):
+        import logging
+        sys.stdout.flush(); sys.stderr.flush()
+        os.dup2(self.o1, 1); os.dup2(self.o2, 2)
+        os.close(self.o1); os.close(self.o2); os.close(self.null)
+        logging.disable(self.lvl)
+
+
+C04_MATRIX = [
+    ('default', {}),
+    ('memo-off', {'memoization': False}),
+    ('plm-0.01', {'perlinememos': 0.01}),
+    ('plm-0.5', {'perlinememos': 0.5}),
+    ('plm-1', {'perlinememos': 1}),
+    ('noprune', {'prune_memos_on_cut': False}),
+    ('plm-1-noprune', {'perlinememos': 1, 'prune_memos_on_cut': False}),
+    ('trace', {'trace': True, 'colorize': False}),
+    ('trace-color', {'trace': True, 'colorize': True}),
+    ('nocolor', {'colorize': False}),
+    ('parseinfo', {'parseinfo': True}),
+    ('parseinfo-plm-0.01', {'parseinfo': True, 'perlinememos': 0.01}),
+]
+
+
+def run_matrix_case(case):
+    """Parse every text under every configuration of C04_MATRIX (memo-off skipped when case['lr']).
+    -> {'compile':..., 'res': [ {config name: outcome} per text ]}"""
+    sys.setrecursionlimit(case.get('reclimit', 3000))
+    import tatsu
+    signal.signal(signal.SIGALRM, _alarm)
+    base = dict(case.get('settings') or {})
+    start = case.get('start', 's')
+    out = {'res': []}
+    clear_caches()
+    signal.alarm(case.get('timeout', 20))
+    try:
+        model = tatsu.compile(case['ebnf'])
+        out['compile'] = {'k': 'ok'}
+    except Exception as e:  # noqa: BLE001
+        out['compile'] = {'k': 'exc', 'cls': type(e).__name__, 'msg': str(e)[:300]}
+        return out
+    finally:
+        signal.alarm(0)
+    for text in case['texts']:
+        r = {}
+        for name, kw in C04_MATRIX:
+            if name == 'memo-off' and case.get('lr'):
+                continue
+            signal.alarm(case.get('timeout', 20))
+            try:
+                allkw = dict(base); allkw.update(kw)
+                sem = make_semantics(case.get('sem'), case.get('actrule', '*'))
+                if sem is not None:
+                    allkw['semantics'] = sem
+                if kw.get('trace'):
+                    with _Quiet():
+                        r[name] = outcome(lambda: model.parse(text, start=start, **allkw))
+                else:
+                    r[name] = outcome(lambda: model.parse(text, start=start, **allkw))
+            except _Timeout:
+                r[name] = {'k': 'exc', 'cls': 'Timeout'}
+            finally:
+                signal.alarm(0)
+        out['res'].append(r)
+    return out
